@@ -45,7 +45,7 @@ fn c19_count(seq: [u8; 4]) {
 }
 fn c19_count_q(seq: [u8; 4], q: usize) {
     let subsys = tosub::SubsystemHandle;
-    let mut socket = UdpSocket;
+    let mut socket = crate::mk_socket();
     let mut config = mk_config(q, None);
     let mut peers = mk_peers4();
     let mut election = Election::new(&subsys, &mut socket, &mut config, &mut peers, Priority(5));
@@ -60,7 +60,7 @@ fn c19_count_q(seq: [u8; 4], q: usize) {
     let mut leader_at: Option<usize> = None;
     let mut i = 0;
     while i < 4 {
-        let r = election.process_peer_election_message(Some(msg(seq[i])), &mut open);
+        let r = aw!(election.process_peer_election_message(Some(msg(seq[i])), &mut open));
         if counts(seq[i]) && !seen[seq[i] as usize] {
             seen[seq[i] as usize] = true;
             distinct += 1;
@@ -122,7 +122,7 @@ c19h!(c19_vote_step_symbolic, {
     // state construction per (mask, sender) branch would be 48 branches; the open list always contains p3/p4
     // according to the mask's upper bits and p1/p2 according to the lower bits - built with concrete pushes
     let subsys = tosub::SubsystemHandle;
-    let mut socket = UdpSocket;
+    let mut socket = crate::mk_socket();
     let mut config = mk_config(q, None);
     let mut peers = mk_peers4();
     let mut election = Election::new(&subsys, &mut socket, &mut config, &mut peers, Priority(5));
@@ -134,7 +134,7 @@ c19h!(c19_vote_step_symbolic, {
     if p2_open { open.push(name(P2)); }
     let was_open = (sender == P1 && p1_open) || (sender == P2 && p2_open);
     let vote = if sender == P1 { VoteResponse { node_id: name(P1) } } else if sender == P2 { VoteResponse { node_id: name(P2) } } else { VoteResponse { node_id: name(STRANGER) } };
-    let r = election.process_vote_response(vote, &mut open);
+    let r = aw!(election.process_vote_response(vote, &mut open));
     let leader = matches!(&r, Ok(Some(ControlFlow::Break(ElectionOutcome::Leader))));
     core::mem::forget(r);
     if was_open {
@@ -153,7 +153,7 @@ c19h!(c19_vote_step_symbolic, {
 // @h props=C19 tier=quick cap=600 desc="is_part_of_cluster: own id and configured peers yes, anything else no" bounds="4 peers; 6 names"
 c19h!(c19_membership, {
     let subsys = tosub::SubsystemHandle;
-    let mut socket = UdpSocket;
+    let mut socket = crate::mk_socket();
     let mut config = mk_config(3, None);
     let mut peers = mk_peers4();
     let election = Election::new(&subsys, &mut socket, &mut config, &mut peers, Priority(5));
